@@ -35,9 +35,10 @@ def corpus_manifest():
     return cd.corpus_manifest()
 
 
-def distinct_interleavings():
-    """merge the 8-byte interleaving hashes the workers appended to <progress>.ih"""
-    seen = set()
+def distinct_interleavings(seen=None):
+    """merge the 8-byte interleaving hashes the workers appended to <progress>.ih into `seen`"""
+    if seen is None:
+        seen = set()
     for f in os.listdir(RUN):
         if f.startswith("thrsim-") and f.endswith(".ih"):
             p = os.path.join(RUN, f)
@@ -80,6 +81,7 @@ def main(a):
                     pass
         orch.clean_replays(PROP)
         thorough = a.tier == "thorough"
+        ih_seen = set()
         t1 = time.time()
         if thorough:
             deadline = time.time() + 60 * (a.minutes if a.minutes is not None else 30)
@@ -94,10 +96,11 @@ def main(a):
                 rnd["hashes"].update(part["hashes"])
                 rnd["executed"] += part["executed"]
                 rnd["deaths"] += part["deaths"]
+                distinct_interleavings(ih_seen)
         else:
             rnd = orch.run_batch(binary, "RUNS", a.seed, 0, 1500, nw, ENV, chunk=10, args=args, stall=300)
         t_rand = time.time() - t1
-        ndistinct = distinct_interleavings()
+        ndistinct = distinct_interleavings(ih_seen)
 
         # determinism gate: the first runs again in other processes with another worker count
         ngate = 96 if not thorough else 2000
